@@ -8,63 +8,66 @@ TECH = "contract-based deductive verification: own VC generator over go/ssa, con
 # property -> (level text, level note, design ref)
 CLAIMED = {
  "C01": ("Proof, unbounded over all field values: for each of the 65 registered message types and the 7 sub-records, the encoder's output is the byte layout transcribed from the 9P2000.L description (layout DSL in the contract file; little-endian integers, 2-byte-length strings, counted lists, AttrMask/SetAttrMask bit tables, permission masking) and the decoder recovers the fields from any frame of that shape (functional form fields = parse(frame) and the for-all-m form); protocol numbers of typ(); typed buffer wrappers proved against the primitives; Read8..64/ReadString/Write8..64/append/consume proved at the byte-array level against their bodies.",
-         "BRIDGE: the sequence-level contracts of the ten core buffer primitives restate their byte-array contracts over the ghost sequences wr/rd and are assumed (listed in evidence); WriteString's array-level loop is not decided (assumed). send/recv framing (7-byte header, payload vectors) and the registry are not yet verified against bodies; the send-then-recv composition lemma is on paper. Strings/lists longer than 65535 are outside the property's domain (preconditions).",
+         "BRIDGE: the sequence-level contracts of the ten core buffer primitives restate their byte-array contracts over the ghost sequences wr/rd and are assumed (listed in evidence); WriteString's array-level loop is not decided (assumed). send and recv are verified against their bodies (header, size checks, drain, payload vectors); registry.get/put are abstract; the send-then-recv composition lemma is on paper. Strings/lists longer than 65535 are outside the property's domain (preconditions).",
          "4-C01"),
  "C02": ("Partial proof: no-panic (index, slice, make, nil, type assertion) and overrun behaviour of every buffer primitive and of every decoder for arbitrary bytes and arbitrary receiver state (sticky overflow flag, zero results on overrun, ReadString allocation <= 65535); handleRequest: a connection error ends serving without a reply; every reply is sent exactly once.",
-         "recv's size checks / drain / consumption contract and the server's Rlerror-for-protocol-error path are not yet verified against recv's body (assumed contract), so 'consumes exactly its declared size' is NOT yet decided. Goroutine scheduling trusted.",
+         "recv is verified against its body (size checks, drain-or-close, consumed byte count, decode only after a complete body) but relies on the assumed contract of vecnet.Buffers.ReadFrom (C17 is not claimed). Goroutine scheduling trusted.",
          "4-C02"),
  "C03": ("Proof of the server half: for each request handler, call-site obligations that the backend File method is called on the File bound to the request's fid with exactly the message's fields as arguments, that the reply carries the backend's results, and that a backend error becomes Rlerror(errno(err)) through newErr; ExtractErrno is specified by the uninterpreted function errno.",
-         "Not yet under contract: the client half (one T-message per clientFile method, version gating) and ExtractErrno's body (its contract is assumed; listed as UNVERIFIED in the evidence). Backends are assumed to satisfy the File interface contracts. Trusted: front end, VC generator, solvers.",
+         "Client half: 25 clientFile methods send exactly one T-message with their arguments and fid and return the reply's fields (version gating of the u-variants not covered). ExtractErrno's body is not verified (its contract is assumed; listed as UNVERIFIED in the evidence); fmt.Errorf(%w)/errors.Join facts are assumed at DecRef's call sites. Backends are assumed to satisfy the File interface contracts. Trusted: front end, VC generator, solvers.",
          "4-C03"),
  "C04": ("Proof, inductive over histories: every handler is verified against transition rows read off the statement (unbound fid => EBADF, no backend call, table unchanged; clunk/remove always unbind; walk/attach/xattrwalk bind only on success; create rebinds to an open file; open/read/write/readdir/fsync mode checks; opened-directory refusals), with the fid-table invariant as pre- and postcondition of each handler and LookupFID/InsertFID/DeleteFID proved against their bodies.",
-         "DecRef, addChild, markChildDeleted, renameChildTo have assumed (UNVERIFIED) contracts; xattr read/write sub-protocol rows are partial. Trusted: front end, VC generator, solvers.",
+         "markChildDeleted and renameChildTo have assumed (UNVERIFIED) contracts (DecRef and the registration helpers are verified); xattr read/write sub-protocol rows are partial. Trusted: front end, VC generator, solvers.",
          "4-C04"),
  "C05": ("Proof of per-function reference/ownership deltas with ghost state: owed(r) (references the invocation holds) and own(f) (File ownership): every DecRef drops a held reference, every handler returns with owed unchanged and no File left owned locally (error paths close what they obtained), a File is stored into a fidRef only when freshly obtained (no sharing), Close only on owned Files, no method on a closed File. Table functions proved against their bodies.",
-         "The global 'exactly once' follows from the deltas by a counting lemma that is argued on paper, not machine checked. DecRef's body (close at zero, parent release) and connState.stop are not yet verified (assumed contract). Schedules: atomics treated as sequential. Panic exits are not claimed for reference balance (the statement asks it for errors).",
+         "The global 'exactly once' follows from the deltas by a counting lemma that is argued on paper, not machine checked. DecRef (close only at zero, only its own file, parent dropped only at zero), TryIncRef (never resurrects) and removeWithName's pin/unpin are verified against their bodies; inside DecRef 'the file of a live reference is still open and owned by it' is presumed (listed). connState.stop is not under contract. Schedules: atomics treated as sequential. Panic exits are not claimed for reference balance.",
          "4-C05"),
  "C06": ("Proof of the structural half: handleRequest sends at most one reply, exactly one per handled request, with the request's tag, under sendMu, after StartTag succeeded, never while holding the receive token and only after a receiver exists; connState.handle always returns a reply whose type is the request's R-type or Rlerror (all 33 handlers verified against the handler interface contract), ENOSYS for non-requests, EFAULT on panic; tags untouched by handlers.",
-         "NOT decided: the scheduling half (a blocked backend call delays only conflicting requests) - argued from the hand-off obligation plus C07 lock sets, not explored. send/recv bodies assumed. Known finding F5 (Tflush of its own tag).",
+         "NOT decided by exploration: the scheduling half; what is proved towards it: no backend call is made with the global lock write-held outside rename/remove, no mutex is held at a blocking channel receive, hand-off before handling. Known finding F5 (Tflush of its own tag); F13 (rename/teardown self-deadlock) fixed.",
          "4-C06"),
  "C07": ("Proof of the lock discipline: the lock class of every File method is a precondition on the interface method (read/write/global class over ghost hold counts of renameMu and the path node of the fidRef the receiver was loaded from), checked at every backend call site of every handler; safelyRead/Write/Global are proved against higher-order wrapper contracts; unlink's child-node lock; guarded-by obligations for fidRef.opened/openFlags.",
          "Mutual exclusion of sync.RWMutex is trusted; exclusion is derived from lock sets, not explored over schedules. Files not yet stored in a fidRef are private to the invocation. Known findings F9, F10 (known_findings.txt).",
          "4-C07"),
  "C08": ("Proof of fencing as call-site preconditions (no path-dependent backend call through a fidRef whose path node is deleted; Link target and both rename directories included), refusal rows (ENOENT for walks, EINVAL otherwise, no backend call), rename/remove use the name registered for the reference, tree updates only after backend success, path-node invariants (no nil / self child; live path below live paths) preserved by every handler.",
-         "markChildDeleted / renameChildTo / removeWithName (recursion and loops over maps being mutated) have assumed (UNVERIFIED) contracts: what they do to the tree is not yet checked. Object-identity-through-rename is argued on paper.",
+         "markChildDeleted / renameChildTo / notify* (recursion over subtrees) have assumed (UNVERIFIED) contracts; removeWithName is verified for lock balance, call preconditions and the child-node entry but not for 'every reference under the name is visited' (map iteration is modelled as arbitrary present keys). Object-identity-through-rename is argued on paper.",
          "4-C08"),
  "C09": ("Proof, for all strings: checkSafeName <=> safe(name); safe(name) is a precondition of every name-bearing File method, discharged at every call site; walks advance one component at a time and only from references whose recorded mode is a directory (loop invariants of doWalk); every name registered in the path tree stays safe (invariant), so names returned by nameFor are safe.",
-         "strings.Contains is an uninterpreted atom shared by code and specification. addChild/renameChildTo contracts (which add names) are assumed.",
+         "strings.Contains is an uninterpreted atom shared by code and specification. renameChildTo's contract (which re-registers names) is assumed; addChild/addChildLocked/removeChild are verified.",
          "4-C09"),
  "C10": ("Proof of the safety half with ghost state: the fid/tag pools (Get/Put proved against their bodies with the pool invariant 'cache and never-issued range are disjoint from outstanding ids') never hand out an id that is outstanding; every clientFile method releases a fid only after the server confirmed Tclunk/Tremove (call-site obligation at pool.Put with the ghost call log) and releases a fid it allocated when the request fails; sendRecv registers the tag in pending before sending, removes the registration when the send fails (F12 fix) and releases the tag only after the call is over.",
          "NOT decided: the liveness half (a closed connection makes every pending and later call return) is a whole-history property of goroutines/channels; handleOne/waitAndRecv bodies (channel hand-off of the receiver role) have assumed contracts. Tag/fid pools treated as sequential under their mutex (sync.Mutex trusted).",
          "4-C10"),
  "C11": ("Proof, unbounded over len/offset/chunk size: chunk() against ghost-accumulated call log of its callback: chunks contiguous, in order, each within the limit, stop at first short or failed chunk, returned count is the sum and error the last one, len(p)==0 issues exactly one call, no panic, termination (decreases).",
-         "Callback assumed honest about counts (0 <= n <= len). readAt/writeAt (one Tread/Twrite, EOF translation) not yet under contract.",
+         "Callback assumed honest about counts (0 <= n <= len). readAt/writeAt/ReadAt/WriteAt are under contract (one Tread/Twrite per chunk of the payload size).",
          "4-C11"),
  "C12": ("Proof of the server half from the statement: Tversion always gets Rversion; msize 0 / unparsable / non-L strings => ('unknown', 0) and session unchanged; otherwise msize = min(requested, 4 MiB), version = min(N, 7) in canonical spelling; parseVersion parses canonical strings back to the same number; versionString spelling.",
-         "Assumed facts about fmt.Sprintf(%d), strings.Split and strconv.ParseUint on canonical strings (attached to the call sites, listed in evidence). NewClient's adoption of version/msize (client half) is not yet under contract; F3 (client keeps its own msize) is therefore not yet reported by a check.",
+         "Assumed facts about fmt.Sprintf(%d), strings.Split and strconv.ParseUint (attached to the call sites, listed in evidence). NewClient's adoption of version and msize is verified (F3 fixed).",
          "4-C12"),
  "C13": ("Proof of the server half: Rread frame <= msize for every count (tread.handle postcondition, with the read-buffer pool contract), Rreaddir frame <= msize (count clamp in treaddir.handle + rreaddir.encode loop invariant: payload <= count, whole entries), encoded sizes of every fixed part.",
-         "Client half (payloadSize derivation in NewClient, Readdir/xattr counts) not yet under contract. msize < 11 cannot admit any reply frame and is excluded (precondition). Pool buffers assumed to have length msize (Tversion not pipelined).",
+         "Client payloadSize derivation is verified in NewClient. msize < 11 cannot admit any reply frame and is excluded (precondition). The read-buffer pool's New closure is verified to make msize-byte buffers; that Get returns such a buffer is assumed at the call site (Tversion not pipelined).",
          "4-C13"),
  "C14": ("Proof of ordering obligations: Rflush is constructed only after WaitTag(OldTag) returned; WaitTag returns at once for an idle tag and otherwise only after a receive on the tag's channel, which only ClearTag closes; ClearTag is called exactly once, after the handler returned and before the reply is sent; tflush.handle has no other effect.",
          "Channel close/receive semantics trusted. Known finding F5: OldTag equal to the flush's own tag violates WaitTag's precondition.",
          "4-C14"),
  "C15": ("Proof: every backend call site has an error outcome and a panic outcome; handlers' replies on backend error are Rlerror(errno(err)); lock balance on normal and panic exits of every handler and of the lock wrappers (deferred unlocks); fid table unchanged on error (clunk/remove still unbind); references balanced and obtained Files closed on error paths.",
-         "connState.handle's recover contract not yet under contract (EFAULT mapping). DecRef assumed. Go runtime panics raised asynchronously are out of scope.",
+         "connState.handle's recover (EFAULT reply) is verified. Go runtime panics raised asynchronously are out of scope.",
          "4-C15"),
  "C16": ("Partial: proof of two sufficient disciplines only - lock-state preconditions of every mutex operation (no recursive acquisition, unlock only what is held, child node after parent only) and guarded-by obligations for fidRef.opened/openFlags; tree acyclicity invariant used for child-after-parent.",
-         "NOT decided: progress (every request answered, lost wake-ups on channels/WaitGroup) and observational isolation are whole-system liveness / 2-safety properties outside per-function contracts. Full lock-level order and field classification for all shared fields not yet built.",
+         "NOT decided: progress (every request answered, lost wake-ups on channels/WaitGroup) and observational isolation are whole-system liveness / 2-safety properties outside per-function contracts. Lock-order levels between different mutex classes and a guarded-by classification of every shared field are not built (only fidRef.opened/openFlags and qids.Mapper.paths are classified). F13 (self-deadlock through DecRef->removeChild) and F8 fixed.",
          "4-C16"),
  "C18": ("Proof: every decoder is verified with the receiver object in an arbitrary initial state (recycled object), so its postcondition 'fields are a function of the frame' forces every list to be reset and every field assigned; read replies carry at most count bytes written by this request's ReadAt.",
-         "registry.get/put and recv's payload-buffer handling are not yet verified against bodies. Bridge contracts as in C01.",
+         "registry.get/put are abstract; recv's payload-buffer handling is verified. Bridge contracts as in C01.",
          "4-C18"),
  "C20": ("Proof (unbounded, all 64-bit inputs): encodeLikely against an independent spec function of the dev_t layout, injectivity and bit-63 disjointness as lemmas over that contract; localToQid against a ghost view of its sync.Map and atomic counter (known pairs keep their path, new pairs get a fresh path with bit 63 set, table invariant: values distinct and below the counter, other pairs untouched); qids.Mapper.QIDFor (stable, injective, recorded, invariant preserved) with a guarded-by obligation on Mapper.paths; PathGenerator.NewPath; ModeFromOS/OSMode/QIDType round-trip lemmas over the real SSA for all 2^32 modes.",
          "sync.Map and sync/atomic are modelled sequentially (linearizability trusted); counter wrap-around after 2^63 fallback paths / 2^64 mapper paths excluded by precondition; os.FileInfo.Sys is assumed to return *syscall.Stat_t (as localfs uses it). Findings F7 and F8 fixed (known_findings.txt).",
          "4-C20"),
 }
 
-NOT_YET = "check not built yet (build in progress; DESIGN.md section 7 gives the order)"
-NA = {}
+NOT_YET = "check not built"
+NA = {
+ "C17": "Not decided by contracts within reach: the property lives in vecnet.readFromBuffersLinux (readv through syscall.RawConn.Read with a callback run by the runtime, iovecs built with unsafe pointers) and in the nested loops of Buffers.ReadFrom over a slice of slices that is mutated in place. The generator's subset has no closures executed by foreign functions and no unsafe pointer arithmetic, and a contract for only the portable path does not decide 'both receive paths'. (Buffers).ReadFrom is therefore an assumed contract of recv (listed under C02). DESIGN.md 0f.",
+ "C19": "Not built: needs a ghost model of the OS directory stream with contracts in four backends (readdir.Readdir, localfs, staticfs, composefs) and a relational obligation between Readdir, Walk and GetAttr results of a backend; the server's whole-entry truncation (rreaddir.encode) is verified under C13. Defect F6 (localfs paging) seen in round 0 is described in DESIGN.md section 5 but is not under a check. DESIGN.md 0f.",
+}
 
 def main():
     hooks_commits = subprocess.run(["git","-C","/repo","log","--format=%H","--grep=^verif:"],capture_output=True,text=True).stdout.split()
